@@ -159,7 +159,7 @@ func (w *verifWorld) check() {
 	zz.Reach("both ends completed")
 }
 
-func verifTwoParty(pull bool, steps int, disturb bool) {
+func verifTwoParty(pull bool, steps int, disturb bool) *verifWorld {
 	pa, pb := peer.ID(zz.String("A")), peer.ID(zz.String("B"))
 	zz.Assume(pa != pb)
 	w := &verifWorld{pull: pull, disturb: disturb}
@@ -289,7 +289,6 @@ func verifTwoParty(pull bool, steps int, disturb bool) {
 		case actRestartA:
 			w.restarts++
 			_ = w.a.m.RestartDataTransferChannel(ctx, w.chid)
-			zz.Reach("restarted")
 		}
 		zz.Settle()
 		w.collect()
@@ -299,6 +298,7 @@ func verifTwoParty(pull bool, steps int, disturb bool) {
 	if sa != nil && sb != nil && sa.Status == datatransfer.Completed && sb.Status == datatransfer.Completed {
 		zz.Reach("transfer completed on both ends")
 	}
+	return w
 }
 
 // VerifC01_TwoPartyPush: two-party control plane, push, <= 7 scheduler steps.
@@ -316,8 +316,16 @@ func VerifC01_TwoPartyPull() { verifTwoParty(true, 7, false) }
 //
 //verif:tier thorough
 //verif:opts fuel=80 part0=8 part1=2
-func VerifC01_TwoPartyPushDisturbed() { verifTwoParty(false, 8, true) }
+func VerifC01_TwoPartyPushDisturbed() {
+	if w := verifTwoParty(false, 8, true); w.restarts > 0 {
+		zz.Reach("restarted")
+	}
+}
 
 //verif:tier thorough
 //verif:opts fuel=80 part0=8 part1=2
-func VerifC01_TwoPartyPullDisturbed() { verifTwoParty(true, 8, true) }
+func VerifC01_TwoPartyPullDisturbed() {
+	if w := verifTwoParty(true, 8, true); w.restarts > 0 {
+		zz.Reach("restarted")
+	}
+}
